@@ -29,6 +29,66 @@ NI static void eviol(struct eres *R, const char *fmt, ...) {
     va_list ap; va_start(ap, fmt); vsnprintf(R->rec[R->nrec++], 160, fmt, ap); va_end(ap);
 }
 
+/* the codec-specific public entry points (der_encode, oer_encode, uper_encode, xer_encode and their *_to_buffer forms) */
+NI static asn_enc_rval_t direct_encode(int e, asn_TYPE_descriptor_t *td, void *st, asn_app_consume_bytes_f *cb, void *key) {
+    switch(e) {
+    case 0: return der_encode(td, st, cb, key);
+    case 1: return oer_encode(td, st, cb, key);
+    case 2: return uper_encode(td, 0, st, cb, key);
+    case 3: return xer_encode(td, st, XER_F_BASIC, cb, key);
+    default: return xer_encode(td, st, XER_F_CANONICAL, cb, key);
+    }
+}
+NI static asn_enc_rval_t direct_to_buffer(int e, asn_TYPE_descriptor_t *td, void *st, void *b, size_t sz) {
+    switch(e) {
+    case 0: return der_encode_to_buffer(td, st, b, sz);
+    case 1: return oer_encode_to_buffer(td, 0, st, b, sz);
+    default: return uper_encode_to_buffer(td, 0, st, b, sz);
+    }
+}
+
+NI static void direct_checks(asn_TYPE_descriptor_t *td, void *st, int e, const struct sink *ref, struct eres *R) {
+    char lab[128];
+    size_t n = ref->n;
+    /* size accounting and content through the codec's own entry point */
+    struct sink d = { 0, 0, 0, 0, -1, -1 };
+    snprintf(lab, sizeof lab, "v:%s:direct", SYN[e]); if(cur_label(lab)) return;
+    asn_enc_rval_t er = direct_encode(e, td, st, sink_cb, &d);
+    R->evals++;
+    size_t bytes = (e == 2) ? (size_t)((er.encoded + 7) / 8) : (size_t)er.encoded;
+    if(e == 2 && er.encoded == 0 && d.n == 0) {
+        /* a zero-bit PER encoding: uper_encode reports 0 bits and delivers nothing; the one padding octet of X.691 10.1.3 is
+         * added by the asn_encode / *_to_new_buffer front ends. Nothing to compare through the bit-counting entry points. */
+        __real_free(d.b);
+        return;
+    }
+    if(er.encoded < 0) eviol(R, "%s:direct:failed_where_asn_encode_succeeds", SYN[e]);
+    else if(bytes != d.n || d.n != n || (n && memcmp(d.b, ref->b, n))) eviol(R, "%s:direct:accounting:%zd:%zu:%zu", SYN[e], er.encoded, d.n, n);
+    long ncb = d.calls;
+    __real_free(d.b);
+    if(er.encoded < 0) return;
+    /* a failing callback at every invocation index must surface as -1 */
+    for(long i = 0; i < ncb; i++) {
+        struct sink f = { 0, 0, 0, 0, i, -1 };
+        snprintf(lab, sizeof lab, "v:%s:direct_cbfail%ld/%ld", SYN[e], i, ncb); if(cur_label(lab)) continue;
+        asn_enc_rval_t r3 = direct_encode(e, td, st, sink_cb, &f);
+        R->evals++; R->fired++;
+        if(r3.encoded != -1) eviol(R, "%s:direct_cbfail@%ld/%ld:ret%zd", SYN[e], i, ncb, r3.encoded);
+        __real_free(f.b);
+    }
+    /* the codec's own fixed-buffer front end: too small => -1, large enough => same bytes; never beyond the buffer (ASan) */
+    if(e <= 2) for(size_t sz = 0; sz <= n + 1; sz++) {
+        if(n > 300 && !(sz < 4 || sz + 3 > n || sz == n / 2)) continue;
+        snprintf(lab, sizeof lab, "v:%s:direct_buf%zu", SYN[e], sz); if(cur_label(lab)) continue;
+        unsigned char *b = __real_malloc(sz ? sz : 1); memset(b, 0xCD, sz ? sz : 1);
+        asn_enc_rval_t r2 = direct_to_buffer(e, td, st, b, sz);
+        R->evals++;
+        if(sz < n) { R->fired++; if(r2.encoded != -1) eviol(R, "%s:direct_to_buffer:size%zu<%zu:ret%zd", SYN[e], sz, n, r2.encoded); }
+        else if(r2.encoded != er.encoded || (n && memcmp(b, ref->b, n))) eviol(R, "%s:direct_to_buffer:size%zu:ret%zd!=%zd_or_content", SYN[e], sz, r2.encoded, er.encoded);
+        __real_free(b);
+    }
+}
+
 NI static void valid_checks(asn_TYPE_descriptor_t *td, void *st, int pairs, struct eres *R) {
     char lab[128];
     for(int e = 0; e < 5; e++) {
@@ -79,6 +139,7 @@ NI static void valid_checks(asn_TYPE_descriptor_t *td, void *st, int pairs, stru
                 if(!pairs) break;
             }
         }
+        direct_checks(td, st, e, &ref, R);
         __real_free(ref.b);
     }
 }
